@@ -111,6 +111,26 @@ Proof.
   intros L D. unfold fieldN. rewrite subN_updN_disj; [reflexivity | | ]; rewrite lenN_encode; assumption.
 Qed.
 
+Lemma bump_offsets_val m se k count : 8 <= se -> forall sht idx sht',
+  bump_offsets true m sht se k idx count = Ok sht' ->
+  forall j, idx <= j < idx + N.of_nat count -> fieldN sht' (j * se + 24) 8 = fieldN sht (j * se + 24) 8 + k.
+Proof.
+  intros SE. induction count as [|c IH]; intros sht idx sht' H j Hj; [lia|].
+  cbn [bump_offsets] in H. cbv zeta in H.
+  invb H E1 orig. invb H E2 new. invb H E3 sht1.
+  apply read_field_ok' in E1 as (L1 & _ & ->). apply uadd_ok in E2 as (-> & B2).
+  apply write_field_inv in E3 as (L3 & X3 & LL3).
+  destruct (N.eq_dec j idx) as [->|Hne].
+  - destruct (bump_frame _ _ _ _ _ _ _ H) as (_ & F).
+    transitivity (fieldN sht1 (idx * se + 24) 8).
+    { unfold fieldN. f_equal. apply F. intros j' Hj'. change (N.of_nat 8) with 8. left.
+      assert (idx + 1 <= j') as G by lia. pose proof (mul_succ_le _ _ se G). lia. }
+    rewrite X3. rewrite fieldN_updN_same by exact L3.
+    change (256 ^ N.of_nat 8) with 18446744073709551616. apply N.mod_small. exact B2.
+  - rewrite (IH _ _ _ H) by lia. f_equal. rewrite X3. apply fieldN_updN_disj; [exact L3|].
+    change (N.of_nat 8) with 8. right. assert (idx + 1 <= j) as G by lia. pose proof (mul_succ_le _ _ se G). lia.
+Qed.
+
 Lemma mul_lt_from_le a b c : a * c + 1 <= b * c -> a < b.
 Proof.
   intros H. destruct (N.lt_ge_cases a b) as [L|G]; [exact L|].
@@ -140,6 +160,7 @@ Lemma add_elf_shape : add_elf m e name p = Ok e' ->
                  (o + n <= sx * se + 32 \/ sx * se + 40 <= o) ->
                  subN sht2 o n = subN e (shoff + o) n) /\
     fieldN sht2 (sx * se + 32) 8 = nsz + k /\
+    (forall j, sx < j < shnum -> fieldN sht2 (j * se + 24) 8 = sh_field e j 24 8 + k) /\
     fieldN hdr4 0 4 = nsz /\ fieldN hdr4 24 8 = shoff + k /\ fieldN hdr4 32 8 = lenN p /\
     e' = updN (updN (insN (takeN shoff e) pos (name ++ [zero]) ++ p ++ sht2 ++ hdr4) 40
                     (encode_le 8 (shoff + k + lenN p))) 60 (encode_le 2 (shnum + 1)).
@@ -168,7 +189,8 @@ Proof.
   invb H E10 nsz'. apply uadd_ok in E10 as (-> & B10).
   rewrite flen_eq, lenN_app in H, B10. change (lenN [zero]) with 1 in H, B10. fold k in H, B10.
   invb H E11 sht1. apply write_field_inv in E11 as (L11 & X11 & LL11).
-  invb H E12 sht2. apply bump_frame in E12 as (LL12 & F12).
+  invb H E12 sht2. pose proof E12 as E12v.
+  apply bump_frame in E12 as (LL12 & F12).
   invb H E13 nsz32. apply ucast_ok in E13 as (-> & B13).
   invb H E14 hdr1. apply write_field_inv in E14 as (L14 & X14 & LL14).
   invb H E15 hdr2. apply write_field_inv in E15 as (L15 & X15 & LL15).
@@ -186,7 +208,7 @@ Proof.
   assert (Lsht2 : lenN sht2 = shnum * se) by lia.
   assert (Lh4 : lenN hdr4 = se) by lia.
   repeat (split; [first [reflexivity | lia | assumption]|]).
-  split; [|split; [|split; [|split; [|split]]]].
+  split; [|split; [|split; [|split; [|split; [|split]]]]].
   - (* frame of the old section headers *)
     intros o n D1 D2. rewrite F12.
     + rewrite X11. rewrite subN_updN_disj.
@@ -201,6 +223,12 @@ Proof.
       apply decode_encode_8. lia.
     + intros j Hj. left. assert (sx + 1 <= j) as G by lia.
       pose proof (N.mul_le_mono_r _ _ se G). lia.
+  - (* sh_offset of the sections listed after the names section *)
+    intros j Hj. assert (SE8 : 8 <= se) by lia.
+    rewrite (bump_offsets_val m se k _ SE8 _ _ _ E12v) by (rewrite N2Nat.id; lia). f_equal.
+    rewrite X11. assert (sx + 1 <= j) as G by lia. pose proof (mul_succ_le _ _ se G).
+    rewrite fieldN_updN_disj by (rewrite ?lenN_dropN; change (N.of_nat 8) with 8; lia).
+    rewrite fieldN_dropN. unfold sh_field. fold shoff se. f_equal. lia.
   - rewrite X17. rewrite fieldN_updN_disj by (change (N.of_nat 8) with 8; change (N.of_nat 4) with 4; lia).
     rewrite X16. rewrite fieldN_updN_disj by (change (N.of_nat 8) with 8; change (N.of_nat 4) with 4; lia).
     rewrite X15. rewrite fieldN_updN_disj by (change (N.of_nat 4) with 4; lia).
@@ -255,6 +283,8 @@ Hypothesis LH : lenN hdr4 = se.
 Hypothesis FR : forall o n, (forall j, sx < j < shnum -> o + n <= j * se + 24 \/ j * se + 32 <= o) ->
                  (o + n <= sx * se + 32 \/ sx * se + 40 <= o) ->
                  subN sht2 o n = subN e (shoff + o) n.
+Hypothesis FSZ : fieldN sht2 (sx * se + 32) 8 = nsz + k.
+Hypothesis FV : forall j, sx < j < shnum -> fieldN sht2 (j * se + 24) 8 = sh_field e j 24 8 + k.
 Hypothesis F0 : fieldN hdr4 0 4 = nsz.
 Hypothesis F24 : fieldN hdr4 24 8 = shoff + k.
 Hypothesis F32 : fieldN hdr4 32 8 = lenN p.
@@ -534,11 +564,14 @@ Lemma preserves_core :
   (* old section headers: every byte outside sh_offset of later sections and sh_size of the names section *)
   (forall o n, (forall j, sx < j < shnum -> o + n <= j * se + 24 \/ j * se + 32 <= o) ->
                (o + n <= sx * se + 32 \/ sx * se + 40 <= o) -> o + n <= shnum * se ->
-               subN e' (shoff + k + lenN p + o) n = subN e (shoff + o) n).
+               subN e' (shoff + k + lenN p + o) n = subN e (shoff + o) n) /\
+  (* ... and those two kinds of fields grow by |name|+1 *)
+  (forall j, sx < j < shnum -> fieldN e' (shoff + k + lenN p + (j * se + 24)) 8 = sh_field e j 24 8 + k) /\
+  fieldN e' (shoff + k + lenN p + (sx * se + 32)) 8 = nsz + k.
 Proof.
   pose proof W1. pose proof LT. pose proof LA. pose proof LB.
   split; [exact hd_sub|]. split; [exact f_shoff|]. split; [exact f_shnum|].
-  split; [|split; [|split; [|split]]].
+  split; [|split; [|split; [|split; [|split; [|split]]]]].
   - rewrite NF. replace pos with (lenN Hd + 0) at 1 by (rewrite LHd; lia).
     rewrite subN_app_r'. rewrite <- Lins. apply subN_prefix.
   - rewrite NF. replace (pos + k) with (lenN Hd + (lenN ins + 0)) by (rewrite LHd, Lins; lia).
@@ -549,6 +582,12 @@ Proof.
   - exact Le'.
   - intros o n D1 D2 D3. fold nshoff. rewrite tab_sub. rewrite subN_app_l by (rewrite LS; exact D3).
     now apply FR.
+  - intros j Hj. rewrite <- FV by exact Hj. unfold fieldN. change (N.of_nat 8) with 8. fold nshoff.
+    rewrite tab_sub. assert (j + 1 <= shnum) as G by lia. pose proof (mul_succ_le _ _ se G).
+    rewrite subN_app_l by (rewrite LS; lia). reflexivity.
+  - rewrite <- FSZ. unfold fieldN. change (N.of_nat 8) with 8. fold nshoff.
+    rewrite tab_sub. assert (sx + 1 <= shnum) as G by lia. pose proof (mul_succ_le _ _ se G).
+    rewrite subN_app_l by (rewrite LS; lia). reflexivity.
 Qed.
 End Roundtrip.
 
@@ -558,7 +597,7 @@ Lemma elf_roundtrip m m' e name p e' :
   add_elf m e name p = Ok e' -> extract_elf m' e' name = Ok p.
 Proof.
   intros W NS NK FIT H.
-  destruct (add_elf_shape m e name p e' H) as (sht2 & hdr4 & Hv & A1 & A2 & A3 & A4 & A5 & A6 & A7 & A8 & A9 & A10 & A11 & A12 & A13 & A14 & ->);
+  destruct (add_elf_shape m e name p e' H) as (sht2 & hdr4 & Hv & A1 & A2 & A3 & A4 & A5 & A6 & A7 & A8 & A9 & A10 & A11 & AV & A12 & A13 & A14 & ->);
     [lia|].
   eapply roundtrip_core; eauto.
 Qed.
@@ -573,17 +612,25 @@ Lemma elf_preserves m e name p e' :
   (forall o n, o + n <= pos -> (o + n <= 40 \/ 48 <= o) -> (o + n <= 60 \/ 62 <= o) -> subN e' o n = subN e o n) /\
   fieldN e' 40 8 = shoff + k + lenN p /\ fieldN e' 60 2 = shnum + 1 /\
   subN e' pos k = name ++ [zero] /\
-  subN e' (pos + k) (shoff - pos) = subN e pos (shoff - pos) /\
+  (forall o n, pos <= o -> o + n <= shoff -> subN e' (o + k) n = subN e o n) /\
   subN e' (shoff + k) (lenN p) = p /\
   lenN e' = shoff + k + lenN p + (shnum + 1) * se /\
   (forall o n, (forall j, sx < j < shnum -> o + n <= j * se + 24 \/ j * se + 32 <= o) ->
                (o + n <= sx * se + 32 \/ sx * se + 40 <= o) -> o + n <= shnum * se ->
-               subN e' (shoff + k + lenN p + o) n = subN e (shoff + o) n).
+               subN e' (shoff + k + lenN p + o) n = subN e (shoff + o) n) /\
+  (forall j, sx < j < shnum -> fieldN e' (shoff + k + lenN p + (j * se + 24)) 8 = sh_field e j 24 8 + k) /\
+  fieldN e' (shoff + k + lenN p + (sx * se + 32)) 8 = names_size e + k.
 Proof.
   intros W FIT H.
-  destruct (add_elf_shape m e name p e' H) as (sht2 & hdr4 & Hv & A1 & A2 & A3 & A4 & A5 & A6 & A7 & A8 & A9 & A10 & A11 & A12 & A13 & A14 & ->);
+  destruct (add_elf_shape m e name p e' H) as (sht2 & hdr4 & Hv & A1 & A2 & A3 & A4 & A5 & A6 & A7 & A8 & A9 & A10 & A11 & AV & A12 & A13 & A14 & ->);
     [lia|].
   cbv zeta. split; [exact A2|]. split; [exact A3|]. split; [exact A5|]. split; [exact A4|].
-  eapply preserves_core; eauto.
+  edestruct (preserves_core e name p sht2 hdr4) as (P1 & P2 & P3 & P4 & P5 & P6 & P7 & P8 & P9 & P10); eauto.
+  repeat (split; [assumption|]). split; [|repeat (split; [assumption|]); assumption].
+  intros o n D1 D2.
+  pose proof (f_equal (fun l => subN l (o - (names_off e + names_size e)) n) P5) as Q. cbv beta in Q.
+  rewrite !subN_subN in Q by lia.
+  replace (names_off e + names_size e + (lenN name + 1) + (o - (names_off e + names_size e))) with (o + (lenN name + 1)) in Q by lia.
+  replace (names_off e + names_size e + (o - (names_off e + names_size e))) with o in Q by lia. exact Q.
 Qed.
 
